@@ -13,8 +13,8 @@ func init() {
 	Props["C11"] = Prop{
 		Title: "Sampler admits the first N then every Mth entry per level and message per tick",
 		Fn:    checkC11,
-		Explanation: "The counter dynamics over arbitrary arrival patterns and the exact window boundary are runtime arithmetic and are NOT decided. Decided is the form of the mechanism: disabled entries return before any counter access; the counter is indexed by level − _minLevel and fnv32a(message) mod the table width, inside a range guard whose constants equal the table's dimensions; the hash loop visits every byte; exactly one hook call per decided entry, with LogDropped exactly on the path that returns the incoming entry without delegating and LogSampled exactly on the path that delegates, both only for in-range levels; the admission predicate is literally n > first ∧ (thereafter = 0 ∨ (n − first) mod thereafter ≠ 0), with the modulo only evaluated under thereafter ≠ 0; derived cores share counters, tick, first, thereafter and hook; the window protocol compares the stored window end with the ENTRY's timestamp under a single comparison, restarts the count with the same constant it adds, installs timestamp + tick by compare-and-swap from the loaded value, and uses no wall clock. " +
-			"NOT decided: that counts are exact under all arrival orders, CAS race accounting, inclusive/exclusive boundary, hash collisions.",
+		Explanation: "The counter dynamics over arbitrary arrival patterns and the exact window boundary are runtime arithmetic and are NOT decided. Decided, by exploring every path of sampler.Check with the entry level fixed to each value from one below to one above the valid range (helpers inline, every other condition forked): a disabled entry returns the incoming entry before any counter access; an enabled entry with an out-of-range level is forwarded unsampled with no counter access and no hook; an in-range entry looks up the bucket of (its level, its message), counts with its own timestamp and the sampler's tick, and then the conditions established on the path determine drop = n > first ∧ (thereafter = 0 ∨ (n − first) mod thereafter ≠ 0) by three-valued evaluation; the hook is called exactly once with the decision actually applied (dropped: the incoming entry is returned; sampled: (ent, ce) is forwarded to the wrapped core), the modulo is only evaluated after thereafter ≠ 0 was established, and nothing else influences the decision. IncCheckReset has exactly the three paths of the window protocol (open window: Add(1); elapsed: Store(1), compare-and-swap of the window end from the loaded value to timestamp + tick, winner reports 1, loser Add(1)), driven by the entry timestamp only. Further: bucket index = level − _minLevel and a hash over every byte of the message modulo the table width, table dimensions equal to the guards, counters stored inline as atomics, derived cores sharing counters/tick/first/thereafter/hook, and the wiring of Config.Sampling (installed iff present, Initial→first, Thereafter→thereafter, 1 s tick). " +
+			"NOT decided: that counts are exact under all arrival orders, CAS race accounting, inclusive/exclusive window boundary, hash collisions.",
 		Assumptions: commonAssumptions,
 	}
 }
@@ -598,7 +598,6 @@ func containsS(l []string, s string) bool {
 	}
 	return false
 }
-
 
 // c11Config: what a Config's Sampling section asks for is what the sampler gets: installed whenever the section is
 // present (N = M = 0 is a valid request: drop everything), Initial → first, Thereafter → thereafter, one-second tick.
